@@ -542,7 +542,6 @@ fn take_draws() -> (Vec<crate::ri::DrawEv>, usize) {
     (v, runs)
 }
 
-#[allow(deprecated)]
 fn run_with<D: HasCore>(tc: &TestCase, mut driver: D, opts: &RunOpts) -> RealRun {
     digital_test_runner::verif_hooks::set_seed_override(opts.seed);
     digital_test_runner::verif_hooks::set_fuel(opts.fuel);
@@ -561,9 +560,7 @@ fn run_with<D: HasCore>(tc: &TestCase, mut driver: D, opts: &RunOpts) -> RealRun
     };
     let log = driver.core().log.clone();
     {
-        // `run_iter` is the documented alias of `try_iter`: every statement about "constructing the iterator" holds for
-        // both. Which one a case uses is a function of the case (odd number of signals).
-        let it = guarded(|| if tc.signals.len() % 2 == 1 { tc.run_iter(&mut driver) } else { tc.try_iter(&mut driver) });
+        let it = guarded(|| tc.try_iter(&mut driver));
         match it {
             Err(p) => run.ctor = Some(RealItem::Panic(p)),
             Ok(Err(e)) => run.ctor = Some(iter_err(&e, |d| d.id)),
